@@ -349,8 +349,6 @@ func DNSCaching(ttl time.Duration) func(*Attacker) {
 				}()
 			}
 
-			rng := rand.New(rand.NewSource(time.Now().UnixNano()))
-
 			tr.DialContext = func(ctx context.Context, network, addr string) (conn net.Conn, err error) {
 				host, port, err := net.SplitHostPort(addr)
 				if err != nil {
@@ -369,7 +367,9 @@ func DNSCaching(ttl time.Duration) func(*Attacker) {
 				// Pick a random IP from each IP family and dial each concurrently.
 				// The first that succeeds wins, the other gets canceled.
 
-				rng.Shuffle(len(ips), func(i, j int) { ips[i], ips[j] = ips[j], ips[i] })
+				// The returned slice is owned by the cache, so work on a copy.
+				ips = append([]string(nil), ips...)
+				rand.Shuffle(len(ips), func(i, j int) { ips[i], ips[j] = ips[j], ips[i] })
 
 				ips = firstOfEachIPFamily(ips)
 
